@@ -153,7 +153,76 @@ class Invariants:
         return True
 
     def real_sites(self, S):
-        return [s for s in self.sites.get(S, []) if not self.is_fieldwise_clone(S, s[0], s[3])]
+        return [s for s in self.sites.get(S, []) if not self.is_fieldwise_clone(S, s[0], s[3]) and not self._inherits(S, s[0], s[3], s[1])]
+
+    def _inherits(self, S, fnpath, t, blk=None):
+        """the literal takes every scalar field and the length of every vector field from one existing value X of the same
+        type (`Self { blocks: vec![0; self.blocks.len()], order: self.order }`): whatever relates lengths and scalars in X
+        holds in the new value (induction over construction sites)"""
+        an = self.c.an(fnpath)
+        base = None
+        seen_scalar = False
+        for fl, op in zip(self.adt_fields(S), t[3]):
+            if fl["ty"]["k"] == "int":
+                if not (op[0] == "mem" and op[3] is None and op[2] == ("e",) and isinstance(op[1], str)
+                        and op[1].endswith("." + fl["name"])):
+                    return False
+                b = op[1][: -len("." + fl["name"])]
+                if base is not None and b != base:
+                    return False
+                base = b
+                seen_scalar = True
+        if not seen_scalar or base is None:
+            return False
+        ri = an.region_info.get(base)
+        if not (ri and ri["ty"].get("k") == "adt" and ri["ty"].get("path") == S):
+            return False
+        for fl, op in zip(self.adt_fields(S), t[3]):
+            if is_vec_ty(fl["ty"]):
+                L = mk_len(strip_ref(op), an)
+                if not (L[0] == "len" and L[1][0] == "at" and L[1][1] == base + "." + fl["name"] and L[1][2] is None and L[1][3] == ("e",)):
+                    if not self._zipped_same_shape(S, an, fnpath, blk, strip_ref(op), base, fl["name"]):
+                        return False
+            elif fl["ty"]["k"] != "int":
+                return False
+        return True
+
+    def _zipped_same_shape(self, S, an, fnpath, blk, op, base, fname):
+        """op = X.f.iter().zip(Y.f.iter()).map(..).collect() with X = base and Y a value of the same type all of whose scalar
+        fields are known to equal X's at this point: both lengths are the same function of the scalars"""
+        IT = "core::iter::traits::iterator::Iterator::"
+        t = op
+        if not (t[0] == "call" and t[1] == IT + "collect" and t[3]):
+            return False
+        t = t[3][0]
+        while t[0] == "call" and t[1] in (IT + "map", IT + "copied", IT + "cloned") and t[3]:
+            t = t[3][0]
+        if not (t[0] == "call" and t[1] == IT + "zip" and len(t[3]) == 2):
+            return False
+        bases = []
+        for x in t[3]:
+            while x[0] == "call" and x[3] and x[1] in ("slice::iter", "core::iter::traits::collect::IntoIterator::into_iter",
+                                                       "core::ops::deref::Deref::deref", "alloc::vec::Vec::as_slice"):
+                x = x[3][0]
+            x = strip_ref(x)
+            if not (x[0] == "at" and x[2] is None and x[3] == ("e",) and x[1].endswith("." + fname)):
+                return False
+            bases.append(x[1][: -len("." + fname)])
+        if base not in bases or blk is None:
+            return False
+        fx = self.c.fx(fnpath)
+        for b2 in bases:
+            if b2 == base:
+                continue
+            ri = an.region_info.get(b2)
+            if not (ri and ri["ty"].get("k") == "adt" and ri["ty"].get("path") == S):
+                return False
+            for fl in self.adt_fields(S):
+                if fl["ty"]["k"] == "int":
+                    a_, b_ = ("mem", base + "." + fl["name"], ("e",), None), ("mem", b2 + "." + fl["name"], ("e",), None)
+                    if not fx.holds(blk, lambda rel: rel.eq(a_, b_)):
+                        return False
+        return True
 
     # -- length templates: len(x.F[.sub]) == T[HOLE := order(x.G*) | x.G] ----------
     def len_templates(self, S):
